@@ -3,6 +3,7 @@ package main
 import (
 	"fmt"
 	"go/types"
+	"sort"
 	"strings"
 
 	"golang.org/x/tools/go/ssa"
@@ -64,6 +65,35 @@ func (f *Frame) doCall(st *State, site ssa.CallInstruction, common *ssa.CallComm
 			dt := c.W.tagTypes[int(recv.Tag.C.Int64())]
 			callee := c.W.prog.LookupMethod(dt, common.Method.Pkg(), common.Method.Name())
 			if callee != nil {
+				var r *Val
+				if _, isPtr := dt.Underlying().(*types.Pointer); isPtr {
+					r = scalar(recv.Pay, dt)
+				} else {
+					r = c.load(st, recv.Pay, dt)
+				}
+				return f.callStatic(st, site, common, callee, append([]*Val{r}, args...), nil)
+			}
+		}
+		// solver-aided devirtualisation: a dynamic type the assumptions pin down
+		if recv.Tag.C == nil {
+			iface, _ := common.Value.Type().Underlying().(*types.Interface)
+			var ids []int
+			for id := range c.W.tagTypes {
+				ids = append(ids, id)
+			}
+			sort.Ints(ids)
+			for _, id := range ids {
+				dt := c.W.tagTypes[id]
+				if iface == nil || !types.Implements(dt, iface) {
+					continue
+				}
+				if c.feasible(And(st.reach, Neq(recv.Tag, IntLitI(int64(id))))) {
+					continue
+				}
+				callee := c.W.prog.LookupMethod(dt, common.Method.Pkg(), common.Method.Name())
+				if callee == nil {
+					continue
+				}
 				var r *Val
 				if _, isPtr := dt.Underlying().(*types.Pointer); isPtr {
 					r = scalar(recv.Pay, dt)
@@ -379,7 +409,7 @@ func (f *Frame) copyRange(st *State, dBase, dOff, sBase, sOff, n Term, et types.
 	}
 	// symbolic but provably short: guarded element-wise copy (quantifier-free)
 	if !isAggregate(et) {
-		for _, bnd := range []int64{8, 16, 64} {
+		for _, bnd := range []int64{8, 16} {
 			if !c.feasible(And(st.reach, c.idxLt(c.idxLit(bnd), n))) {
 				vals := make([]*Val, bnd)
 				for i := int64(0); i < bnd; i++ {
@@ -405,9 +435,10 @@ func (f *Frame) copyRange(st *State, dBase, dOff, sBase, sOff, n Term, et types.
 		i := raw("i", c.idxSort)
 		inWin := And(c.idxLe(dOff, i), c.idxLt(i, c.idxAdd(dOff, n)))
 		src := Select(Select(e, sBase), c.idxAdd(sOff, c.idxSub(i, dOff)))
-		c.assumes = append(c.assumes, Assume{declPos: len(c.decls), why: "copy of a symbolic range",
+		c.assumes = append(c.assumes, Assume{declPos: len(c.decls), heapAx: true, why: "copy of a symbolic range",
 			t: raw(fmt.Sprintf("(forall ((i %s)) (! (= (select %s i) (ite %s %s (select (select %s %s) i))) :pattern ((select %s i))))",
 				c.idxSort, na.S, inWin.S, src.S, e.S, dBase.S, na.S), SBool)})
+		c.copyRecs[na.S] = copyRec{e, dBase, dOff, n, sBase, sOff}
 		c.memSet(st, en, Store(e, dBase, na))
 	}
 }
